@@ -134,6 +134,10 @@ class PyUnit:
         path = os.path.join(cextract.REPO, self.file)
         with open(path) as f:
             src = f.read()
+        pre_dropped = []
+        if self.options.get("source_transform"):
+            # a .pyx source: the named functions are cut out of the file and their C declarations removed, mechanically, on every run
+            src, pre_dropped = self.options["source_transform"](src)
         tree = ast.parse(src)
         fn = find_function(tree, self.qualname)
         if fn is None:
@@ -208,7 +212,7 @@ class PyUnit:
             res.cover_failures.append("no feasible exit path")
         res.subject.update(file=self.file, function=self.qualname, sha256_16=sha(ftext),
                            route="python ast of the function as found in the working tree",
-                           dropped=sorted(ex.dropped))
+                           dropped=sorted(set(ex.dropped) | set(pre_dropped)))
         res.assumptions = sorted(ex.assumptions)
         self._finish(res, ex.obligations, e, timeout_s)
 
